@@ -393,8 +393,9 @@ func ruleNilMapLookup(c *Ctx) {
 
 // pathFact is one comparison known to hold (neg: known NOT to hold) whenever control reaches a given node.
 type pathFact struct {
-	be  *ast.BinaryExpr
-	neg bool
+	be   *ast.BinaryExpr
+	neg  bool
+	loop bool // the condition of an enclosing for statement
 }
 
 // pathFactsAt reads the comparisons that hold at node n off the structure around it: n stands after an
@@ -403,6 +404,7 @@ type pathFact struct {
 // conjunct, a disjunction that does not hold gives the negation of each disjunct; anything else gives nothing.
 func pathFactsAt(parents map[ast.Node]ast.Node, n ast.Node) []pathFact {
 	var out []pathFact
+	inLoop := false
 	var add func(e ast.Expr, neg bool)
 	add = func(e ast.Expr, neg bool) {
 		switch x := ast.Unparen(e).(type) {
@@ -417,7 +419,7 @@ func pathFactsAt(parents map[ast.Node]ast.Node, n ast.Node) []pathFact {
 				add(x.Y, neg)
 			case x.Op == token.LAND || x.Op == token.LOR:
 			default:
-				out = append(out, pathFact{x, neg})
+				out = append(out, pathFact{x, neg, inLoop})
 			}
 		}
 	}
@@ -441,7 +443,9 @@ func pathFactsAt(parents map[ast.Node]ast.Node, n ast.Node) []pathFact {
 			}
 		case *ast.ForStmt:
 			if child == ast.Node(x.Body) && x.Cond != nil {
+				inLoop = true
 				add(x.Cond, false)
+				inLoop = false
 			}
 		case *ast.BinaryExpr:
 			if child == ast.Node(x.Y) {
